@@ -57,8 +57,14 @@ Cmp(b) == IF b = "A" THEN TbCmp ELSE 0 - TbCmp      \* sign(tb[b] - tb[Other(b)]
 One(m) == SetToBag({m})
 SeqToBag(s) == LET RECURSIVE Fold(_) Fold(k) == IF k = 0 THEN EmptyBag ELSE Fold(k-1) (+) One(s[k]) IN Fold(Len(s))
 
-RemIdx(rs, addr) == LET S == {k \in 1..Len(rs) : rs[k].addr = addr} IN IF S = {} THEN 0 ELSE CHOOSE k \in S : TRUE
-PairIdx(ps, l, r) == LET S == {k \in 1..Len(ps) : ps[k].l = l /\ ps[k].r = r} IN IF S = {} THEN 0 ELSE CHOOSE k \in S : \A j \in S : k <= j
+\* several remote candidates may share one transport address (a peer with a public address signals a host and a server-reflexive
+\* candidate that differ only in type): a source address stands for the first of them (findRemoteCandidate), a pair belongs to one
+\* of them (rt = that candidate's type; findPair compares candidates, not addresses)
+RemIdx(rs, addr) == LET S == {k \in 1..Len(rs) : rs[k].addr = addr} IN IF S = {} THEN 0 ELSE CHOOSE k \in S : \A j \in S : k <= j
+RemIdxT(rs, addr, t) == LET S == {k \in 1..Len(rs) : rs[k].addr = addr /\ rs[k].typ = t} IN IF S = {} THEN 0 ELSE CHOOSE k \in S : \A j \in S : k <= j
+PairIdxT(ps, l, r, t) == LET S == {k \in 1..Len(ps) : ps[k].l = l /\ ps[k].r = r /\ ps[k].rt = t} IN IF S = {} THEN 0 ELSE CHOOSE k \in S : \A j \in S : k <= j
+\* the pair a datagram from r on l is accounted to: that of the first remote candidate at r
+PairIdxVia(ps, l, r, rs) == IF RemIdx(rs, r) = 0 THEN 0 ELSE PairIdxT(ps, l, r, rs[RemIdx(rs, r)].typ)
 PairById(ps, id) == LET S == {k \in 1..Len(ps) : ps[k].id = id} IN IF S = {} THEN 0 ELSE CHOOSE k \in S : TRUE
 
 \* pair priority: lexicographic code of (min, max, G>D) with G = controlling side's candidate priority; frozen at pair creation role
@@ -66,7 +72,7 @@ PPrio(ctl, lp, rp) == LET g == IF ctl THEN lp ELSE rp   d == IF ctl THEN rp ELSE
                           mn == IF g < d THEN g ELSE d  mx == IF g > d THEN g ELSE d
                       IN mn * 100 + mx * 2 + (IF g > d THEN 1 ELSE 0)
 \* pnv: nomination value of a deferred renomination (0 = plain USE-CANDIDATE)
-NewPair(id, l, r, rprio, ctl) == [id |-> id, l |-> l, r |-> r, st |-> "W", nom |-> FALSE, nos |-> FALSE, pnv |-> 0, reqs |-> 0,
+NewPair(id, l, r, rt, rprio, ctl) == [id |-> id, l |-> l, r |-> r, rt |-> rt, st |-> "W", nom |-> FALSE, nos |-> FALSE, pnv |-> 0, reqs |-> 0,
                                   prio |-> PPrio(ctl, HostPrio, rprio)]
 Best(ps, S) == IF S = {} THEN 0 ELSE CHOOSE k \in S : \A j \in S : ps[j].prio < ps[k].prio \/ (ps[j].prio = ps[k].prio /\ k <= j)
 BestValid(ps) == Best(ps, {k \in 1..Len(ps) : ps[k].st = "S"})
@@ -85,22 +91,23 @@ Expire(S) == {x \in S : now - x.at < H}
 Addrs == {"a1", "a2", "b1", "b2", "n1", "x9"}
 Never == [x \in Addrs |-> 0 - 1]
 RTyp(a, r) == remotes[a][RemIdx(remotes[a], r)].typ
-Nominatable(a, p) == now - selStart[a] >= Acc["host"] /\ now - selStart[a] >= Acc[RTyp(a, p.r)]
+Nominatable(a, p) == now - selStart[a] >= Acc["host"] /\ now - selStart[a] >= Acc[p.rt]
 
 \* ---------- initial state: both agents gathered, signalled and started
 RECURSIVE AddRemotePairs(_, _, _, _, _, _)
 AddRemotePairs(ps, id, ls, k, c, ctl) ==   \* pair a new remote c with every local (findPair guard)
   IF k > Len(ls) THEN [ps |-> ps, id |-> id]
-  ELSE IF PairIdx(ps, ls[k], c.addr) # 0 /\ "findpair" \notin Miss THEN AddRemotePairs(ps, id, ls, k + 1, c, ctl)
-       ELSE AddRemotePairs(Append(ps, NewPair(id + 1, ls[k], c.addr, c.prio, ctl)), id + 1, ls, k + 1, c, ctl)
+  ELSE IF PairIdxT(ps, ls[k], c.addr, c.typ) # 0 /\ "findpair" \notin Miss THEN AddRemotePairs(ps, id, ls, k + 1, c, ctl)
+       ELSE AddRemotePairs(Append(ps, NewPair(id + 1, ls[k], c.addr, c.typ, c.prio, ctl)), id + 1, ls, k + 1, c, ctl)
 RECURSIVE AddAllRemotes(_, _, _, _, _, _)
 AddAllRemotes(ps, id, ls, cs, k, ctl) ==
   IF k > Len(cs) THEN [ps |-> ps, id |-> id]
   ELSE LET r == AddRemotePairs(ps, id, ls, 1, cs[k], ctl) IN AddAllRemotes(r.ps, r.id, ls, cs, k + 1, ctl)
 Init ==
   /\ role = InitRole /\ gen = [a \in Agents |-> 1] /\ rgen = [a \in Agents |-> 1]
-  /\ locals = Loc /\ remotes = PreSignal
-  /\ LET r == [a \in Agents |-> AddAllRemotes(<<>>, 0, Loc[a], PreSignal[a], 1, InitRole[a] = "controlling")] IN
+  \* what was signalled before the start, less what the remote IP filter refuses
+  /\ locals = Loc /\ remotes = [a \in Agents |-> SelectSeq(PreSignal[a], LAMBDA c : c.addr \notin RFilter[a])]
+  /\ LET r == [a \in Agents |-> AddAllRemotes(<<>>, 0, Loc[a], SelectSeq(PreSignal[a], LAMBDA c : c.addr \notin RFilter[a]), 1, InitRole[a] = "controlling")] IN
        pairs = [a \in Agents |-> r[a].ps] /\ nextId = [a \in Agents |-> r[a].id]
   /\ pend = [a \in Agents |-> {}] /\ sel = [a \in Agents |-> 0] /\ nomPair = [a \in Agents |-> 0]
   /\ conn = [a \in Agents |-> "Checking"] /\ nextTid = Tid0
@@ -203,7 +210,7 @@ HandleReq(b, lc, m) ==
      /\ lastNom' = [lastNom EXCEPT ![b] = IF keeps THEN @ ELSE 0]
      /\ UNCHANGED <<pend, nextTid, sel, conn, lastRx>>
   ELSE
-     LET ps == ap.ps   k == PairIdx(ps, lc, m.src)   p == ps[k]   t == nextTid[b] IN
+     LET ps == ap.ps   k == PairIdxVia(ps, lc, m.src, rs1)   p == ps[k]   t == nextTid[b] IN
      /\ remotes' = [remotes EXCEPT ![b] = rs1] /\ nextId' = [nextId EXCEPT ![b] = ap.id] /\ UNCHANGED <<role, selStart>>
      /\ lastRx' = [lastRx EXCEPT ![b][m.src] = now]
      /\ IF ctl THEN
@@ -246,7 +253,7 @@ HandleSucc(b, lc, m) ==
      ELSE LET x == CHOOSE y \in T : TRUE IN
        /\ pend' = [pend EXCEPT ![b] = live \ {x}] /\ net' = net (-) One(m)
        /\ IF x.dst # m.src /\ "respdst" \notin Miss THEN UNCHANGED <<pairs, sel, conn, answered, lastNom>>
-          ELSE LET ps == pairs[b]  k == PairIdx(ps, lc, m.src) IN
+          ELSE LET ps == pairs[b]  k == PairIdxVia(ps, lc, m.src, remotes[b]) IN
                IF k = 0 THEN UNCHANGED <<pairs, sel, conn, answered, lastNom>>
                ELSE LET p == ps[k]
                         cur == IF sel[b] = 0 THEN 0 ELSE PairById(ps, sel[b])
@@ -329,7 +336,7 @@ RECURSIVE AddAllLocals(_, _, _, _, _, _, _)
 AddAllLocals(ps, id, ls, li, rs, ri, ctl) ==
   IF li > Len(ls) THEN [ps |-> ps, id |-> id]
   ELSE IF ri > Len(rs) THEN AddAllLocals(ps, id, ls, li + 1, rs, 1, ctl)
-  ELSE AddAllLocals(Append(ps, NewPair(id + 1, ls[li], rs[ri].addr, rs[ri].prio, ctl)), id + 1, ls, li, rs, ri + 1, ctl)
+  ELSE AddAllLocals(Append(ps, NewPair(id + 1, ls[li], rs[ri].addr, rs[ri].typ, rs[ri].prio, ctl)), id + 1, ls, li, rs, ri + 1, ctl)
 Gather(a) ==
   /\ gath[a] = "new" /\ conn[a] # "Closed" /\ gath' = [gath EXCEPT ![a] = "complete"] /\ locals' = [locals EXCEPT ![a] = Loc[a]]
   /\ LET r == AddAllLocals(pairs[a], nextId[a], Loc[a], 1, remotes[a], 1, role[a] = "controlling") IN
@@ -342,16 +349,18 @@ SetRemoteCreds(a) ==
 \* AddRemoteCandidate(c): Equal-dedup, peer-reflexive supersession, pairing
 AddRemote(a, c) ==
   /\ conn[a] # "Closed"
-  /\ LET rs == remotes[a]  k == RemIdx(rs, c.addr) IN
+  /\ LET rs == remotes[a]  same == RemIdxT(rs, c.addr, c.typ)  k == RemIdxT(rs, c.addr, "prflx") IN
      IF c.addr \in RFilter[a] THEN UNCHANGED <<remotes, pairs, nextId, conn>>      \* refused by the remote IP filter
-     ELSE IF k # 0 /\ rs[k].typ = c.typ THEN UNCHANGED <<remotes, pairs, nextId, conn>>
-     ELSE IF k # 0 /\ rs[k].typ = "prflx" THEN   \* supersession keeps pairs (ids, states, priority override)
+     ELSE IF same # 0 THEN UNCHANGED <<remotes, pairs, nextId, conn>>               \* Equal to a known candidate (any of those at that address)
+     ELSE IF k # 0 THEN   \* supersession keeps pairs (ids, states, priority override)
           /\ remotes' = [remotes EXCEPT ![a] = Append(SubSeq(rs, 1, k - 1) \o SubSeq(rs, k + 1, Len(rs)), c)]
           \* the pairs of the superseded candidate now belong to c; pairing c with every local finds them (findPair guard)
-          /\ LET r == AddRemotePairs(pairs[a], nextId[a], locals[a], 1, c, role[a] = "controlling") IN
+          /\ LET own == [i \in 1..Len(pairs[a]) |-> IF pairs[a][i].r = c.addr /\ pairs[a][i].rt = "prflx" THEN [pairs[a][i] EXCEPT !.rt = c.typ] ELSE pairs[a][i]]
+                  r == AddRemotePairs(own, nextId[a], locals[a], 1, c, role[a] = "controlling") IN
                pairs' = [pairs EXCEPT ![a] = r.ps] /\ nextId' = [nextId EXCEPT ![a] = r.id]
           \* replaceRemoteInPairs re-announces a selected pair through setSelectedPair, which reports Connected unconditionally
-          /\ conn' = [conn EXCEPT ![a] = IF sel[a] # 0 /\ pairs[a][PairById(pairs[a], sel[a])].r = c.addr THEN "Connected" ELSE @]
+          /\ conn' = [conn EXCEPT ![a] = IF sel[a] # 0 /\ pairs[a][PairById(pairs[a], sel[a])].r = c.addr
+                                             /\ pairs[a][PairById(pairs[a], sel[a])].rt = "prflx" THEN "Connected" ELSE @]
      ELSE LET r == AddRemotePairs(pairs[a], nextId[a], locals[a], 1, c, role[a] = "controlling") IN
           /\ remotes' = [remotes EXCEPT ![a] = Append(rs, c)]
           /\ pairs' = [pairs EXCEPT ![a] = r.ps] /\ nextId' = [nextId EXCEPT ![a] = r.id] /\ UNCHANGED conn
@@ -446,7 +455,10 @@ SelListed == \A a \in Agents : sel[a] # 0 => PairById(pairs[a], sel[a]) # 0
 FilterHolds == \A a \in Agents : /\ \A kr \in 1..Len(remotes[a]) : remotes[a][kr].addr \notin RFilter[a]
                                   /\ \A kp \in 1..Len(pairs[a]) : pairs[a][kp].r \notin RFilter[a]
 UniqueIds == \A a \in Agents : \A i, j \in 1..Len(pairs[a]) : i # j => pairs[a][i].id # pairs[a][j].id
-NoDupPairs == \A a \in Agents : \A i, j \in 1..Len(pairs[a]) : i # j => <<pairs[a][i].l, pairs[a][i].r>> # <<pairs[a][j].l, pairs[a][j].r>>
+NoDupPairs == \A a \in Agents : \A i, j \in 1..Len(pairs[a]) : i # j =>
+                 <<pairs[a][i].l, pairs[a][i].r, pairs[a][i].rt>> # <<pairs[a][j].l, pairs[a][j].r, pairs[a][j].rt>>
+RemotesDeduped == \A a \in Agents : \A i, j \in 1..Len(remotes[a]) : i # j =>
+                     <<remotes[a][i].addr, remotes[a][i].typ>> # <<remotes[a][j].addr, remotes[a][j].typ>>
 PairsFromCurrent == \A a \in Agents : \A i \in 1..Len(pairs[a]) :
                       pairs[a][i].l \in Rng(locals[a]) /\ RemIdx(remotes[a], pairs[a][i].r) # 0
 Mirror == (sel["A"] # 0 /\ sel["B"] # 0 /\ gen["A"] = rgen["B"] /\ gen["B"] = rgen["A"]) =>
